@@ -248,8 +248,10 @@ def main(argv=None):
         'wall_s': round(time.time() - t0, 2),
         'violations': len(vio_lines),
     }
-    os.makedirs(os.path.join(ROOT, 'evidence'), exist_ok=True)
-    json.dump(ev, open(os.path.join(ROOT, 'evidence', prop + '.json'), 'w'), indent=1, default=str)
+    # runs against a scratch copy (VERIF_REPO, used for seeded changes) must not overwrite the evidence of the real tree
+    evdir = 'evidence' if os.path.realpath(os.environ.get('VERIF_REPO', '/repo')) == '/repo' else os.path.join('replays', 'scratch-evidence')
+    os.makedirs(os.path.join(ROOT, evdir), exist_ok=True)
+    json.dump(ev, open(os.path.join(ROOT, evdir, prop + '.json'), 'w'), indent=1, default=str)
 
     print(f"[{prop}] tier={tier} contracts={len(names)} paths={paths} obligations={n_obl} discharged={n_dis} "
           f"failed={len(failed)} unknown={len(unknown)} solver_s={solver_time} wall_s={ev['wall_s']}")
